@@ -25,11 +25,12 @@ import (
 func init() { commands["lifecycle"] = cmdLifecycle }
 
 type lcStep struct {
-	Op  string          `json:"op"`
-	Arg json.RawMessage `json:"arg"`
-	Exp json.RawMessage `json:"exp"`
-	Ph  string          `json:"ph"`
-	Cfg string          `json:"cfg"`
+	Props string          `json:"props"`
+	Op    string          `json:"op"`
+	Arg   json.RawMessage `json:"arg"`
+	Exp   json.RawMessage `json:"exp"`
+	Ph    string          `json:"ph"`
+	Cfg   string          `json:"cfg"`
 }
 
 type lcHist struct {
@@ -101,6 +102,13 @@ func lcConfig(which string, async bool, theta, upper log.Level) sys.Cfg {
 		}
 		// the second reference only admits levels from TOP upwards: nothing logged here, raw writes only
 		cfg.AddLogger(name, typ, lcRange(theta, upper), tags, []sys.Ref{{Ref: apps[0]}, {Ref: apps[1], Level: "TOP"}}, true, extra)
+	}
+	// process-wide properties differ between the two configurations
+	switch which {
+	case "A":
+		cfg["bufferCap"], cfg["enableCaller"] = "8KB", "true"
+	case "B":
+		cfg["bufferCap"], cfg["enable-caller"] = "2KB", "false"
 	}
 	switch which {
 	case "A":
@@ -388,10 +396,17 @@ func runHistory(r *hx.Result, rng *rand.Rand, console *sys.Console, tmp string, 
 	e.handles["ha"] = log.GetLogger("ha")
 	r.Eval(1)
 
+	checkProps := func(si int, props string) {
+		want := map[string]int32{"-": 10240, "A": 8192, "B": 2048}
+		if w, ok := want[props]; ok && log.BufferCap.Load() != w {
+			e.viol("global-properties:"+props, "before step %d: bufferCap is %d, the specification has the properties of %q in force (%d)", si, log.BufferCap.Load(), props, w)
+		}
+	}
 	for si, s := range h.H {
 		if e.failed {
 			break
 		}
+		checkProps(si, s.Props)
 		var expStr string
 		_ = json.Unmarshal(s.Exp, &expStr)
 		switch s.Op {
